@@ -146,16 +146,17 @@ def collect(p: subprocess.Popen, outdir: Path, job: dict) -> dict:
     }
 
 
-def launch_sync(src: str, only: list[str] | None = None):
-    """Start ``harness.c14_sync_worker`` (the Synchronized-set probe)."""
+def launch_sync(src: str, only: list[str] | None = None, module: str = "harness.c14_sync_worker", extra: dict | None = None):
+    """Start ``harness.c14_sync_worker`` (the Synchronized-set probe) or another worker with the same protocol."""
     outdir = VERIF / "out" / "c14" / ("sync-" + uuid.uuid4().hex[:10])
     outdir.mkdir(parents=True, exist_ok=True)
     job = dict(src=src, only=only, result_file=str(outdir / "result.json"))
+    job.update(extra or {})
     (outdir / "job.json").write_text(json.dumps(job))
     env = dict(os.environ, PYTHONPATH=f"{src}:{VERIF}", PYTHONHASHSEED="0")
     err = open(outdir / "stderr.txt", "w")
     p = subprocess.Popen(
-        [sys.executable, "-m", "harness.c14_sync_worker", str(outdir / "job.json")],
+        [sys.executable, "-m", module, str(outdir / "job.json")],
         cwd=VERIF, env=env, stdin=subprocess.DEVNULL, stdout=subprocess.DEVNULL, stderr=err,
         start_new_session=True,
     )
